@@ -3,5 +3,6 @@ CONSTANTS
   NW = 2
   K = 2
   PerThread = FALSE
+  Shape = "seedDraw"
 INVARIANT StreamIsolation
 CHECK_DEADLOCK FALSE
